@@ -345,6 +345,15 @@ def bareSplit (cx : Ctx) : Nat → Bytes → Bytes × Bytes
         let (w, rest) := bareSplit cx f (q.drop size)
         (q.take size ++ w, rest)
 
+/-- key and order names as explicit bytes (so that the kernel can compare them) -/
+def kUnit : Bytes := [46, 117, 110, 105, 116]                    -- ".unit"
+def kConfig : Bytes := [46, 99, 111, 110, 102, 105, 103]         -- ".config"
+def kFullname : Bytes := [46, 102, 117, 108, 108, 110, 97, 109, 101]  -- ".fullname"
+def oFirst : Bytes := [102, 105, 114, 115, 116]                  -- "first"
+def oFixed : Bytes := [102, 105, 120, 101, 100]                  -- "fixed"
+def oAlpha : Bytes := [97, 108, 112, 104, 97]                    -- "alpha"
+def oNum : Bytes := [110, 117, 109]                              -- "num"
+
 def wAND : Bytes := [65, 78, 68]
 def wOR : Bytes := [79, 82]
 
